@@ -2,8 +2,8 @@
    (so it never panics: every index and slice expression of the loop is in range), and with spare
    capacity behind the slice it returns the same for every tail. *)
 From JT.Base Require Import Prelude PreludeP.
-From JT.Model Require Import Frame Total_base Total_cap Total_cap2 Total_unesc.
-From JT.Proofs Require Import LocationStd Location_proofs Frame_proofs Total_cap_proofs Total_cap2_proofs.
+From JT.Model Require Import Frame Total_base Total_cap Total_unesc.
+From JT.Proofs Require Import LocationStd Location_proofs Frame_proofs Total_cap_proofs.
 From Coq Require Import ZArith ZifyN ZifyNat ZifyBool.
 Ltac Zify.zify_post_hook ::= Z.div_mod_to_equations.
 Local Open Scope N_scope.
@@ -201,3 +201,10 @@ Qed.
 
 Theorem unescape_local d tail : unescape_cap d tail = unescape d.
 Proof. rewrite <- unescape_chk_eq. apply refines_eq. apply refines_unescape. apply unescape_chk_total. Qed.
+
+(* JTMessage.Decode with the unescape walk at index level is decode_chk *)
+Theorem frame_decode_chk_eq d : frame_decode_chk d = decode_chk d.
+Proof.
+  unfold frame_decode_chk. rewrite unescape_chk_eq. unfold decode_chk.
+  destruct (unescape d); reflexivity.
+Qed.
